@@ -471,6 +471,11 @@ pub(crate) fn run(
                         if state.get(0) > slot1 {
                             state.save(0, slot1);
                         }
+                        // `\K` inside a look-behind can move the start before the position the
+                        // search started from. Cap the start to >= pos.
+                        if state.get(0) < pos {
+                            state.save(0, pos);
+                        }
                     }
                     return Ok(Some(state.saves));
                 }
